@@ -684,6 +684,75 @@ pub fn gen_fair(r: &mut Rng, sid: String, transitions: bool) -> Scenario {
     Scenario { sid, conns, steps, fair: true }
 }
 
+/// C18 with mixed roles: flooders, single-call clients and clients that open a stream and then stay silent
+/// connect in any order and send at any moment (always whole frames, so that a call is ready as soon as it
+/// is available); streams start and end in between.  The fairness counters of ServerTrace restart at every
+/// change of the connection set, so every quiet stretch between two changes is a fairness experiment.
+pub fn gen_fair_mixed(r: &mut Rng, sid: String) -> Scenario {
+    let n = r.range(3, 5);
+    let mut conns: Vec<ConnScript> = Vec::new();
+    // role 0 = flooder, 1 = single calls, 2 = one streaming call, then silence
+    let mut roles: Vec<u8> = (0..n).map(|_| r.below(3) as u8).collect();
+    roles[0] = 0;
+    roles[1] = 1;
+    // (positions are shuffled by the connect order below, not by the index)
+    for c in 0..n {
+        let calls: Vec<Kind> = match roles[c] {
+            0 => (0..r.range(3, 8))
+                .map(|_| match r.below(6) {
+                    0 => Kind::Oneway,
+                    1 => Kind::Error,
+                    _ => Kind::Plain(0),
+                })
+                .collect(),
+            1 => (0..r.range(1, 3)).map(|_| Kind::Plain(r.range(0, 10))).collect(),
+            _ => vec![Kind::Stream(r.below(3) as u32, true)],
+        };
+        conns.push(ConnScript { calls, faulty: false, fail_write_at: 0 });
+    }
+    let mut steps = Vec::new();
+    let mut to_connect: Vec<usize> = (0..n).collect();
+    let mut sent = vec![0usize; n];
+    let mut budget = 120;
+    while budget > 0 && (!to_connect.is_empty() || (0..n).any(|c| sent[c] < conns[c].calls.len())) {
+        budget -= 1;
+        match r.below(8) {
+            0 | 1 => {
+                if !to_connect.is_empty() {
+                    let k = r.below(to_connect.len() as u64) as usize;
+                    steps.push(Step::Connect(to_connect.remove(k)));
+                }
+            }
+            2..=4 => {
+                let c = r.below(n as u64) as usize;
+                if !to_connect.contains(&c) && sent[c] < conns[c].calls.len() {
+                    // a flooder delivers everything it has left in one go, the others one call at a time
+                    let k = if roles[c] == 0 && r.chance(2, 3) { conns[c].calls.len() - sent[c] } else { 1 };
+                    sent[c] += k;
+                    steps.push(Step::Send { c, frames: k, extra: 0 });
+                }
+            }
+            5 => steps.push(Step::Tick(r.below(n as u64) as usize)),
+            _ => steps.push(Step::Poll),
+        }
+    }
+    for c in 0..n {
+        if to_connect.contains(&c) {
+            steps.push(Step::Connect(c));
+        }
+    }
+    // let every stream finish and everything be served
+    for _ in 0..12 {
+        for c in 0..n {
+            if roles[c] == 2 {
+                steps.push(Step::Tick(c));
+            }
+        }
+        steps.push(Step::Poll);
+    }
+    Scenario { sid, conns, steps, fair: true }
+}
+
 /// Scenario from a TLC-exported Server behaviour (MCServerExport): scripts plus the sequence of
 /// environment actions and server iterations.
 pub fn from_model_behaviour(v: &Value, sid: String) -> Scenario {
